@@ -650,11 +650,20 @@ func (h *c8Run) runValue(r *c8Root, x any) {
 
 	// --- JSON
 	ft, pf, finite := c8Tables(x)
+	// the four equations of the FloatLaws hypothesis of the JSON theorems, checked on every double this case uses:
+	//   ParseFloat(json.Marshal(f)) = f for finite f;  ParseFloat("NaN") = math.NaN();  ParseFloat("±Infinity") = ±Inf
+	// (that jsoniter's ReadFloat64 agrees with ParseFloat is what the exact `jdec` differential checks)
 	for _, b := range finite {
 		f := math.Float64frombits(b)
 		t, _ := json.Marshal(f)
+		h.stat("floattext.checked")
 		if g, err := strconv.ParseFloat(string(t), 64); err != nil || math.Float64bits(g) != b {
 			h.viol("C08/floattext/"+strconv.FormatUint(b, 10), "text="+string(t))
+		}
+	}
+	for txt, want := range map[string]uint64{"NaN": 0x7FF8000000000001, "Infinity": 0x7FF0000000000000, "-Infinity": 0xFFF0000000000000} {
+		if g, err := strconv.ParseFloat(txt, 64); err != nil || math.Float64bits(g) != want {
+			h.viol("C08/floattext/special-"+txt, "got="+strconv.FormatUint(math.Float64bits(g), 16))
 		}
 	}
 	h.out.Linef("op jenc %s %s ft=%s", r.name, val, ft)
@@ -1044,35 +1053,40 @@ func (h *c8Run) deprecated(dataRoot, reqRoot string, x any) {
 		return
 	}
 	h.out.Linef("obs pb %s %d", c8Hex(e.b), e.n)
-	y := h.opDec(r, e.b)
-	if y != nil {
-		if d := c8Diff(x, y, c8ValOpt{}); d.path != "" {
-			h.roundtripViol("pb/roundtrip", r, d, "")
-		}
-	}
-	z := h.opDec(rq, e.b)
-	if z == nil {
-		h.viol("C08/pb/migrate/decode-error", "root="+rq.name)
-		return
-	}
-	// direct oracle of the migration: the deprecated list moved into the regular one
-	res := reflect.ValueOf(z).Elem().Field(0) // []*ResourceX
-	src := reflect.ValueOf(x).Elem().Field(0)
-	for i := 0; i < res.Len() && i < src.Len(); i++ {
-		got, want := res.Index(i).Elem(), src.Index(i).Elem()
-		var dep, reg, wdep reflect.Value
-		for k := 0; k < got.NumField(); k++ {
-			n := got.Type().Field(k).Name
-			if strings.HasPrefix(n, "Deprecated") {
-				dep, wdep = got.Field(k), want.Field(k)
-				reg = got.FieldByName(strings.TrimPrefix(n, "Deprecated"))
-			}
-		}
-		if !dep.IsValid() || !reg.IsValid() {
+	// every decode path migrates: the plain ProtoUnmarshaler as well as the request wrapper
+	for _, rt := range []*c8Root{r, rq} {
+		z := h.opDec(rt, e.b)
+		if z == nil {
+			h.viol("C08/pb/migrate/decode-error", "root="+rt.name)
 			continue
 		}
-		if dep.Len() != 0 || reg.Len() != wdep.Len() {
-			h.viol("C08/pb/migrate/"+got.Type().Name(), "root="+rq.name+" deprecated="+strconv.Itoa(dep.Len())+" regular="+strconv.Itoa(reg.Len()))
+		// direct oracle of the migration: the deprecated list moved into the regular one
+		res := reflect.ValueOf(z).Elem().Field(0) // []*ResourceX
+		src := reflect.ValueOf(x).Elem().Field(0)
+		for i := 0; i < res.Len() && i < src.Len(); i++ {
+			got, want := res.Index(i).Elem(), src.Index(i).Elem()
+			var dep, reg, wdep reflect.Value
+			for k := 0; k < got.NumField(); k++ {
+				n := got.Type().Field(k).Name
+				if strings.HasPrefix(n, "Deprecated") {
+					dep, wdep = got.Field(k), want.Field(k)
+					reg = got.FieldByName(strings.TrimPrefix(n, "Deprecated"))
+				}
+			}
+			if !dep.IsValid() || !reg.IsValid() {
+				continue
+			}
+			if dep.Len() != 0 || reg.Len() != wdep.Len() {
+				h.viol("C08/pb/migrate/"+got.Type().Name(), "root="+rt.name+" deprecated="+strconv.Itoa(dep.Len())+" regular="+strconv.Itoa(reg.Len()))
+			}
+		}
+		// the property itself on the payload the API hands out: JSON round trip and protobuf/JSON consistency
+		if je := h.jenc(rt, z); je.err == nil {
+			if back := h.jdec(rt, je.b); back.err == nil {
+				if d := c8Diff(z, back.x, c8ValOpt{normNaN: true}); d.path != "" {
+					h.roundtripViol("json/roundtrip", rt, d, " decoded-from-deprecated-bytes")
+				}
+			}
 		}
 	}
 }
